@@ -5,7 +5,7 @@ seeded/<id>/meta.json whether and how the check reports it (exit status, violati
 Afterwards rewrites the table between the SEEDED markers in DESIGN.md."""
 import concurrent.futures, glob, json, os, re, subprocess, sys, threading, time
 ROOT = os.path.dirname(os.path.dirname(os.path.abspath(__file__)))
-GEN_GROUP = {"C02", "C04", "C05", "C06", "C12"}   # these regenerate files under lean/RkVerif/Gen: one at a time
+GEN_GROUP = {"C01", "C02", "C04", "C05", "C06", "C12"}   # these regenerate files under lean/RkVerif/Gen: one at a time
 gen_lock = threading.Lock()
 plocks = {}
 
